@@ -37,6 +37,18 @@ theories/C11/ProofsTop.vos theories/C11/ProofsTop.vok theories/C11/ProofsTop.req
 theories/C11/Props.vo theories/C11/Props.glob theories/C11/Props.v.beautified theories/C11/Props.required_vo: theories/C11/Props.v theories/Base/Tactics.vo theories/Lib/Pareto.vo theories/C11/Model.vo theories/C11/ProofsSfs.vo theories/C11/ProofsLow.vo theories/C11/ProofsTop.vo
 theories/C11/Props.vio: theories/C11/Props.v theories/Base/Tactics.vio theories/Lib/Pareto.vio theories/C11/Model.vio theories/C11/ProofsSfs.vio theories/C11/ProofsLow.vio theories/C11/ProofsTop.vio
 theories/C11/Props.vos theories/C11/Props.vok theories/C11/Props.required_vos: theories/C11/Props.v theories/Base/Tactics.vos theories/Lib/Pareto.vos theories/C11/Model.vos theories/C11/ProofsSfs.vos theories/C11/ProofsLow.vos theories/C11/ProofsTop.vos
+theories/C15/Examples.vo theories/C15/Examples.glob theories/C15/Examples.v.beautified theories/C15/Examples.required_vo: theories/C15/Examples.v theories/C15/Model.vo
+theories/C15/Examples.vio: theories/C15/Examples.v theories/C15/Model.vio
+theories/C15/Examples.vos theories/C15/Examples.vok theories/C15/Examples.required_vos: theories/C15/Examples.v theories/C15/Model.vos
+theories/C15/Model.vo theories/C15/Model.glob theories/C15/Model.v.beautified theories/C15/Model.required_vo: theories/C15/Model.v 
+theories/C15/Model.vio: theories/C15/Model.v 
+theories/C15/Model.vos theories/C15/Model.vok theories/C15/Model.required_vos: theories/C15/Model.v 
+theories/C15/Proofs.vo theories/C15/Proofs.glob theories/C15/Proofs.v.beautified theories/C15/Proofs.required_vo: theories/C15/Proofs.v theories/C15/Model.vo
+theories/C15/Proofs.vio: theories/C15/Proofs.v theories/C15/Model.vio
+theories/C15/Proofs.vos theories/C15/Proofs.vok theories/C15/Proofs.required_vos: theories/C15/Proofs.v theories/C15/Model.vos
+theories/C15/Props.vo theories/C15/Props.glob theories/C15/Props.v.beautified theories/C15/Props.required_vo: theories/C15/Props.v theories/C15/Model.vo theories/C15/Proofs.vo
+theories/C15/Props.vio: theories/C15/Props.v theories/C15/Model.vio theories/C15/Proofs.vio
+theories/C15/Props.vos theories/C15/Props.vok theories/C15/Props.required_vos: theories/C15/Props.v theories/C15/Model.vos theories/C15/Proofs.vos
 theories/Lib/Pareto.vo theories/Lib/Pareto.glob theories/Lib/Pareto.v.beautified theories/Lib/Pareto.required_vo: theories/Lib/Pareto.v theories/Base/Tactics.vo
 theories/Lib/Pareto.vio: theories/Lib/Pareto.v theories/Base/Tactics.vio
 theories/Lib/Pareto.vos theories/Lib/Pareto.vok theories/Lib/Pareto.required_vos: theories/Lib/Pareto.v theories/Base/Tactics.vos
